@@ -338,7 +338,7 @@ def rule_half(ctx):
         if isinstance(cand, (ast.If, ast.IfExp)):
             bt, bf = (cand.body, cand.orelse) if isinstance(cand, ast.If) else ([cand.body], [cand.orelse])
             ft, ff = fmts(bt), fmts(bf)
-            if ft and ff and (("%H" in ft[0]) != ("%H" in ff[0])):
+            if (ft or ff) and (any("%H" in x for x in ft) != any("%H" in x for x in ff)):
                 br = cand
                 break
     if br is None:
@@ -348,7 +348,7 @@ def rule_half(ctx):
     negs = 0
     while isinstance(test, ast.UnaryOp) and isinstance(test.op, ast.Not):
         test, negs = test.operand, negs + 1
-    if "%H" not in fmts(b_true)[0]:
+    if not any("%H" in x for x in fmts(b_true)):
         negs += 1           # the year form is the positive branch: the window is the negation of the test
     # window = conjunction of `d < 0` / `d <= 0` constraints, d linear in (mtime, now, T)
     def lin(e, sign=1, acc=None):
@@ -371,18 +371,18 @@ def rule_half(ctx):
             return atoms(t.operand, not negate)
         if isinstance(t, ast.BoolOp):
             if isinstance(t.op, ast.And) == negate:
-                return None          # a disjunction: not a window
+                return "disjunction"
             out = []
             for v in t.values:
                 a_ = atoms(v, negate)
-                if a_ is None:
-                    return None
+                if a_ is None or a_ == "disjunction":
+                    return a_
                 out += a_
             return out
         if isinstance(t, ast.Compare):
             terms = [t.left] + list(t.comparators)
             if negate and len(t.ops) > 1:
-                return None
+                return "disjunction"
             out = []
             for a_, op, b_ in zip(terms, t.ops, terms[1:]):
                 if not isinstance(op, (ast.Lt, ast.LtE, ast.Gt, ast.GtE)):
@@ -397,6 +397,10 @@ def rule_half(ctx):
             return out
         return None
     cons = atoms(test, bool(negs % 2))
+    if cons == "disjunction":
+        ctx.fail("C07.HALF", br.test, f"the time-of-day (year-less) form is selected by a disjunction (`{src(br.test)[:70]}`, year-less branch taken when it is "
+                 f"{'false' if negs % 2 else 'true'}): that is not the window (now - T, now] - timestamps outside it are written without their year", construct="half:not a window")
+        cons = []
     if cons is None:
         raise Inconclusive("C07.HALF: window test is not a conjunction of comparisons: " + src(test))
     c = br.test
